@@ -82,7 +82,7 @@ static const char* LAYOUT[] = {"", "\n", "\n\n\n", "\r\n", "  \t ", "/* c */ ", 
 static const int NLAYOUT = sizeof LAYOUT / sizeof LAYOUT[0];
 
 // an undeclared identifier `nope` is put at a known place of a block; the reported range must be exactly the identifier
-extern "C" void harness_undeclared_identifier()  /* vf: bounds=14_text_blocks(global/local_declarations,parameters,invariants,guards,updates,synchronisation,select,system)_x_11_layouts_before_the_block_text_x_5_layouts_in_front_of_the_identifier reach=end */
+extern "C" void harness_undeclared_identifier()  /* vf: bounds=14_text_blocks(global/local_declarations,parameters,invariants,guards,updates,synchronisation,select,system)_x_11_layouts_before_the_block_text_x_5_layouts_in_front_of_the_identifier;in_the_system_block_5_roles(argument,process_list_positions_1..3_incl._a_list_over_two_lines,after_priority) reach=end */
 {
     int b = vf_pick("!block", NBLOCKS), lay = vf_pick("!layout", NLAYOUT), mid = vf_pick("!inner_layout", 5);
     static const char* MID[] = {" ", "\n", "  /* x */  ", "\r\n\t", " // y\n  "};
@@ -93,7 +93,19 @@ extern "C" void harness_undeclared_identifier()  /* vf: bounds=14_text_blocks(gl
     case 0: head = *t + " &&" + MID[mid]; tail = " > 0"; break;                    // <orig> && nope > 0
     case 1: head = *t + " int q =" + MID[mid]; tail = ";"; break;                   // declarations: int q = nope;
     case 2: head = *t + ", const int[0," + MID[mid]; tail = "] pp"; break;         // parameters: const int[0, nope] pp
-    case 3: head = "P1 = T(" + std::string(MID[mid]); tail = "); system P1, U;"; break;
+    case 3: {   // the system block: the unknown name in every role a name can have there
+        int role = vf_pick("!role", 6);
+        vf_assume(role != 1);   // an unknown template name is reported as "$Not_a_template" on the whole instantiation head 'P1 = nope', not as an undeclared identifier
+        std::string M = MID[mid];
+        switch (role) {
+        case 0: head = "P1 = T(" + M; tail = "); system P1, U;"; break;              // instantiation argument
+        case 1: head = "P1 =" + M; tail = "(1); system U;"; break;                     // instantiated template
+        case 2: head = "system" + (M == " " || M == "\n" || M == "\r\n\t" ? M : " " + M); tail = ", U;"; break;   // first of the process list
+        case 3: head = "system U," + M; tail = ";"; break;                               // second
+        case 4: head = "U2 = U(); system U,\n U2," + M; tail = ";"; break;             // third, list over two lines
+        default: head = "system U <" + M; tail = ";"; break;                              // after a priority separator
+        }
+        break; }
     case 4: head = *t + ", g =" + MID[mid]; tail = " + 1"; break;
     case 5: head = "c[" + std::string(MID[mid]); tail = "]!"; break;
     case 6: head = "k : int[0," + std::string(MID[mid]); tail = "]"; break;
@@ -131,17 +143,21 @@ extern "C" void harness_undeclared_identifier()  /* vf: bounds=14_text_blocks(gl
 }
 
 // other faults: the position lies inside the block: right XPath, line within the block text, columns within that line, start <= end
-extern "C" void harness_fault_positions()  /* vf: bounds=14_text_blocks_x_7_faults(dropped_operand,unbalanced_bracket,stray_token,type_error,side_effect,unterminated_comment,unknown_token)_x_11_layouts reach=end */
+extern "C" void harness_fault_positions()  /* vf: bounds=14_text_blocks_x_7_faults(labels:dropped_operand,unbalanced_bracket,stray_token,type_error,side_effect,unterminated_comment,unknown_token;declarations_and_parameters:misplaced_prefixes,ill-typed_sizes_and_ranges)_x_11_layouts reach=end */
 {
     int b = vf_pick("!block", NBLOCKS), lay = vf_pick("!layout", NLAYOUT), fault = vf_pick("!fault", 7);
     MModel m = base_model();
     std::string* t = block_text(m, b);
     int kind = BLOCKS[b].kind;
-    vf_assume(kind == 0 || kind == 4);   // expression-like labels; declaration-like blocks are covered by the identifier harness
+    vf_assume(kind == 0 || kind == 4 || kind == 1 || kind == 2);   // expression-like labels; declaration and parameter blocks with faults the type checker reports on type nodes
     static const char* FAULTS_EXPR[] = {" +", " )", " ] h", " + c", " + (g = 1)", " /* open", " @"};
     static const char* FAULTS_UPD[] = {" +", " )", ", ] h", ", g = c", ", K = 1", " /* open", " @"};
-    std::string text = std::string(LAYOUT[lay]) + *t + (kind == 0 ? FAULTS_EXPR[fault] : FAULTS_UPD[fault]);
+    // misplaced type prefixes, ill-formed ranges and sizes: reported by TypeChecker::checkType on the type's own nodes
+    static const char* FAULTS_DECL[] = {" urgent int q1;", " broadcast int[0,3] q2;", " urgent broadcast int[0,7] q3;", " meta clock q4;", " int q5[c];", " int[x, 2] q6;", " struct { int a; chan b; } q7 = { 1 };"};
+    static const char* FAULTS_PARAM[] = {", urgent int q1", ", broadcast int[0,3] q2", ", urgent broadcast int[0,1] q3", ", meta clock q4", ", int q5[c]", ", int[x, 2] q6", ", urgent broadcast bool &q7"};
+    std::string text = std::string(LAYOUT[lay]) + *t + (kind == 0 ? FAULTS_EXPR[fault] : kind == 4 ? FAULTS_UPD[fault] : kind == 1 ? FAULTS_DECL[fault] : FAULTS_PARAM[fault]);
     *t = text;
+    if (kind == 2) m.system = "system U;";   // the extra parameter is not given an argument: the template is left out of the system
     // line structure of the block text
     std::vector<size_t> linelen; { size_t cur = 0; for (char ch : text) { if (ch == '\n') { linelen.push_back(cur); cur = 0; } else cur++; } linelen.push_back(cur); }
     XmlDoc d = render_xml(m);
